@@ -109,6 +109,16 @@ Theorem C20_wellformed_urilist_text :
 Proof. exact wellformed_urilist_text_lemma. Qed.
 Print Assumptions C20_wellformed_urilist_text.
 
+(* T2 for legacy extended M3U that is NOT UTF-8 as a whole: blank lines, comment lines with
+   arbitrary bytes (Latin-1 #EXTINF titles) and entry lines that do not decode are left
+   out one by one; exactly the decodable entries come back, in order *)
+Theorem C20_wellformed_m3u_mixed :
+  forall fx o (ls : list mline),
+    Forall mline_ok ls ->
+    parse fx o (render_m3u (map mline_bytes ls)) = Ok (map Some (mline_entries ls)).
+Proof. exact wellformed_m3u_mixed_lemma. Qed.
+Print Assumptions C20_wellformed_m3u_mixed.
+
 (* T2, PLS over the abstract configparser result *)
 Theorem C20_wellformed_pls :
   forall o data name count_text (files : list str),
